@@ -19,6 +19,8 @@ def no_raw_html(s):
     import re
     s = re.sub(r"<(?=[A-Za-z/!?])", "< ", s)
     s = s.replace("{=", "{ =")
+    # metadata keys whose VALUE is raw target-format source by design (inserted verbatim into the output)
+    s = re.sub(r"(?im)^(x?html ?(header|footer)|odf ?header|latex ?[a-z ]*|mmd ?(header|footer))\s*:", r"Note \1:", s)
     return s
 
 
